@@ -515,6 +515,45 @@ fn main() {
                 let b_again = s.allocate_receiver_link("B");
                 format!("{{\"a\":{},\"b\":{},\"attach_ok\":{},\"detach_ok\":{},\"c\":{},\"b_name_reused\":{}}}", a, b, ra == Some(true) && rb == Some(true), rd == Some(true), c.map(|x| x as i64).unwrap_or(-1), b_again.is_ok())
             }
+            // split <frame size> <payload len> <tag len>: FrameEncoder::encode of a transfer; the frames written
+            "split" => {
+                use bytes::BytesMut;
+                use fe2o3_amqp::frames::amqp::{Frame, FrameBody, FrameDecoder};
+                use tokio_util::codec::{Decoder, Encoder};
+                let (fs, plen, tlen) = (nums[0] as usize, nums[1] as usize, nums[2] as usize);
+                let payload: Vec<u8> = (0..plen).map(|i| (i % 251) as u8 + 1).collect();
+                let t = Transfer {
+                    handle: Handle(1),
+                    delivery_id: Some(7),
+                    delivery_tag: Some(ByteBuf::from(vec![0x2a; tlen])),
+                    message_format: Some(0),
+                    settled: None,
+                    more: false,
+                    rcv_settle_mode: None,
+                    state: None,
+                    resume: false,
+                    aborted: false,
+                    batchable: false,
+                };
+                let mut dst = BytesMut::new();
+                frame_encoder(fs).encode(Frame::new(3u16, FrameBody::Transfer { performative: t, payload: Bytes::from(payload.clone()) }), &mut dst).unwrap();
+                let mut off = 0;
+                let mut frames = Vec::new();
+                let mut got = Vec::new();
+                while off < dst.len() {
+                    let end = (off + fs).min(dst.len());
+                    let mut src = BytesMut::from(&dst[off..end]);
+                    match (FrameDecoder {}).decode(&mut src) {
+                        Ok(Some(Frame { body: FrameBody::Transfer { performative, payload }, .. })) => {
+                            frames.push(format!("{{\"len\":{},\"more\":{},\"has_id\":{},\"has_tag\":{},\"has_fmt\":{}}}", end - off, performative.more, performative.delivery_id.is_some(), performative.delivery_tag.is_some(), performative.message_format.is_some()));
+                            got.extend_from_slice(&payload);
+                        }
+                        _ => frames.push(format!("{{\"len\":{},\"more\":false,\"has_id\":false,\"has_tag\":false,\"has_fmt\":false,\"undecodable\":true}}", end - off)),
+                    }
+                    off = end;
+                }
+                format!("{{\"frames\":[{}],\"payload_ok\":{}}}", frames.join(","), got == payload)
+            }
             // wakeup <pos> <credit>: one waiter with no credit, one grant of <credit> placed
             //   pos 0: before the first poll, 1: at the cfg schedule point (between the failed credit
             //   check and the creation of the wait future), 2: after the first poll returned Pending;
